@@ -1,0 +1,84 @@
+//! C10 facade: schedule points and trace marks inside `ReqSocket` / `RepSocket`.
+//!
+//! `point(name).await` sits between the lock scopes / await points of the REQ and REP call
+//! paths (state check | peer wait + push | state update, ...).  Without an installed hook it
+//! completes immediately without yielding, so the real code is unchanged.  With a hook the harness
+//! decides, per point, which future the call awaits there:
+//!   * replay mode: a "pend once" future - the harness polls every call future by hand, so a
+//!     call advances exactly from one point to the next each time the schedule names its task;
+//!   * multi-thread mode: `yield_now`-like futures or gates, on a real multi-thread runtime.
+//! `mark(name)` counts how often the socket actor passed a place (pipe attached / detached) so
+//! that the harness can wait for an environment event to have taken effect instead of sleeping.
+//! Nothing here changes what the sockets do.
+use std::collections::HashMap;
+use std::future::Future;
+use std::pin::Pin;
+use std::sync::{Arc, Mutex};
+use std::task::{Context, Poll};
+
+pub type VPointFuture = Pin<Box<dyn Future<Output = ()> + Send>>;
+pub type VPointHook = Arc<dyn Fn(&'static str) -> Option<VPointFuture> + Send + Sync>;
+
+static HOOK: Mutex<Option<VPointHook>> = Mutex::new(None);
+static MARKS: Mutex<Option<HashMap<&'static str, u64>>> = Mutex::new(None);
+
+/// Install (or clear) the closure consulted at every schedule point (process-wide).
+pub fn set_point_hook(h: Option<VPointHook>) {
+  *HOOK.lock().unwrap() = h;
+}
+
+/// Called from `#[cfg(rzmq_verif)]` lines inside rzmq.
+pub async fn point(name: &'static str) {
+  let h = HOOK.lock().unwrap().clone();
+  if let Some(h) = h {
+    if let Some(f) = h(name) {
+      f.await
+    }
+  }
+}
+
+/// Called from `#[cfg(rzmq_verif)]` lines inside rzmq (synchronous places).
+pub fn mark(name: &'static str) {
+  let mut g = MARKS.lock().unwrap();
+  *g.get_or_insert_with(HashMap::new).entry(name).or_insert(0) += 1;
+}
+
+/// How often `mark(name)` ran since the process started.
+pub fn marks(name: &str) -> u64 {
+  MARKS.lock().unwrap().as_ref().and_then(|m| m.get(name).copied()).unwrap_or(0)
+}
+
+/// A future that is pending exactly once (it does NOT wake its task: the harness polls by hand).
+pub struct PendOnce(bool);
+impl Future for PendOnce {
+  type Output = ();
+  fn poll(mut self: Pin<&mut Self>, _cx: &mut Context<'_>) -> Poll<()> {
+    if self.0 {
+      Poll::Ready(())
+    } else {
+      self.0 = true;
+      Poll::Pending
+    }
+  }
+}
+pub fn pend_once() -> VPointFuture {
+  Box::pin(PendOnce(false))
+}
+
+/// A future that is pending once and wakes its task immediately (= tokio::task::yield_now).
+pub struct YieldOnce(bool);
+impl Future for YieldOnce {
+  type Output = ();
+  fn poll(mut self: Pin<&mut Self>, cx: &mut Context<'_>) -> Poll<()> {
+    if self.0 {
+      Poll::Ready(())
+    } else {
+      self.0 = true;
+      cx.waker().wake_by_ref();
+      Poll::Pending
+    }
+  }
+}
+pub fn yield_once() -> VPointFuture {
+  Box::pin(YieldOnce(false))
+}
